@@ -3,6 +3,7 @@ package clip
 import (
 	"context"
 	"fmt"
+	"strings"
 	"testing"
 	"testing/synctest"
 	"time"
@@ -30,6 +31,8 @@ type LookupCase struct {
 	Callers []LCaller `json:"callers"`
 	// the cache device is failing throughout (a failed flush is not a failed lookup)
 	CacheFail bool `json:"cache_fail,omitempty"`
+	// the store declares nothing at all (a lookup-only store) and polls through its own poller
+	NoDeclared bool `json:"no_declared,omitempty"`
 }
 
 type lres struct {
@@ -38,6 +41,7 @@ type lres struct {
 	err      error
 	val      string
 	panicked bool
+	again    func() string // updater entries: reads the updater once more
 }
 
 type applyTarget struct {
@@ -62,7 +66,14 @@ func runC16Bubble(c LookupCase, info *h.Info) *h.Violation {
 	svc.Set("d", 1, []byte("dv"))
 	svc.Set("x", 3, []byte(xVal))
 	cache := fake.NewCache(nil)
-	st, err := setec.NewStore(context.Background(), setec.StoreConfig{Client: svc, Secrets: []string{"d"}, AllowLookup: c.Allow, Cache: cache, PollInterval: -1, Logf: nolog})
+	cfg := setec.StoreConfig{Client: svc, Secrets: []string{"d"}, AllowLookup: c.Allow, Cache: cache, PollInterval: -1, Logf: nolog}
+	var tick *chanTicker
+	if c.NoDeclared && c.Allow {
+		tick = newChanTicker()
+		cfg.Secrets, cfg.PollInterval, cfg.PollTicker = nil, 0, tick
+		info.Class("lookup-only-store-with-its-own-poller")
+	}
+	st, err := setec.NewStore(context.Background(), cfg)
 	if err != nil {
 		return h.V("harness", "NewStore: %v", err)
 	}
@@ -76,6 +87,10 @@ func runC16Bubble(c LookupCase, info *h.Info) *h.Violation {
 		svc.SetDefault("x", fake.Beh{Kind: "ok", DelayMs: c.DelayS * 1000})
 	case "err":
 		svc.SetDefault("x", fake.Beh{Kind: "err"})
+	case "err-nettimeout", "err-reqtimeout":
+		// still a failing service: the request fails with a timeout-class network error, or with a
+		// request-level timeout that wraps context.DeadlineExceeded although every caller's context is alive
+		svc.SetDefault("x", fake.Beh{Kind: c.Kind[4:]})
 	case "hang":
 		svc.SetDefault("x", fake.Beh{Kind: "hang"})
 	case "hang-then-ok":
@@ -127,6 +142,7 @@ func runC16Bubble(c LookupCase, info *h.Info) *h.Violation {
 					r.err = err
 					if err == nil {
 						r.val = u.Get()
+						r.again = u.Get
 					}
 				case "applyjson":
 					var tgt applyJSONTarget
@@ -239,7 +255,7 @@ func runC16Bubble(c LookupCase, info *h.Info) *h.Violation {
 				return h.V("working-handle", "caller %d %+v got value %q, the service serves %q", i, cl, r.val, xVal)
 			}
 		}
-		if c.Kind == "err" && r.err == nil {
+		if strings.HasPrefix(c.Kind, "err") && r.err == nil {
 			return h.V("failed-lookup-reported", "caller %d succeeded against a failing service", i)
 		}
 		if c.Kind == "ok" {
@@ -318,7 +334,7 @@ func runC16Bubble(c LookupCase, info *h.Info) *h.Violation {
 			lone++
 		}
 	}
-	if c.Kind == "err" {
+	if strings.HasPrefix(c.Kind, "err") {
 		if lone == 1 && len(reqs) != 1 {
 			return h.V("no-automatic-retry", "a lone caller against a failing service caused %d requests", len(reqs))
 		}
@@ -333,17 +349,27 @@ func runC16Bubble(c LookupCase, info *h.Info) *h.Violation {
 	if anyOK {
 		info.Class("lookup-succeeded")
 		// thereafter polled and cached like any other
-		doc, err := model.DecodeCacheStrict(cache.Data())
-		if err != nil {
-			return h.V("cached-after-lookup", "cache document: %v", err)
-		}
-		if e, ok := doc["x"]; !c.CacheFail && (!ok || e.Version != 3 || string(e.Value) != xVal) {
-			return h.V("cached-after-lookup", "after a successful lookup the cache document is %q", cache.Data())
+		if !c.CacheFail { // (a device that fails every write holds nothing to look at)
+			doc, err := model.DecodeCacheStrict(cache.Data())
+			if err != nil {
+				return h.V("cached-after-lookup", "cache document: %v", err)
+			}
+			if e, ok := doc["x"]; !ok || e.Version != 3 || string(e.Value) != xVal {
+				return h.V("cached-after-lookup", "after a successful lookup the cache document is %q", cache.Data())
+			}
 		}
 		cache.SetFailing(false)
 		svc.SetDefault("x", fake.Beh{Kind: "ok"})
 		l1 := svc.LogLen()
-		if err := st.Refresh(context.Background()); err != nil {
+		if tick != nil {
+			// through the store's own poller
+			select {
+			case tick.ch <- time.Now():
+				<-tick.done
+			case <-time.After(time.Second):
+				return h.V("polled-after-lookup", "a store that declares nothing looked a secret up, but no poller takes the next tick: the secret is never polled")
+			}
+		} else if err := st.Refresh(context.Background()); err != nil {
 			return h.V("polled-after-lookup", "Refresh after lookup: %v", err)
 		}
 		polled := false
@@ -354,6 +380,25 @@ func runC16Bubble(c LookupCase, info *h.Info) *h.Violation {
 		}
 		if !polled {
 			return h.V("polled-after-lookup", "the looked-up secret is not polled by the next Refresh")
+		}
+		// ... and every caller that came in through NewUpdater - however many of them registered while
+		// the one request was pending - follows the next version
+		svc.Set("x", 4, []byte("8"))
+		if err := st.Refresh(context.Background()); err != nil {
+			return h.V("polled-after-lookup", "Refresh after a new version: %v", err)
+		}
+		nupd := 0
+		for i, r := range results {
+			if r.again == nil {
+				continue
+			}
+			nupd++
+			if got := r.again(); got != "8" {
+				return h.V("polled-after-lookup", "caller %d obtained an updater through the lookup; after version 4 was installed by a poll its Get returns %q, want %q (%d callers in all)", i, got, "8", len(c.Callers))
+			}
+		}
+		if nupd >= 2 {
+			info.Class("several-updaters-from-one-lookup-follow-a-new-version")
 		}
 	} else if st.Secret("x") != nil {
 		// no caller obtained a handle, so every flight failed (the scripted service honours the
@@ -377,10 +422,11 @@ func fmtReqs(rs []fake.Req) string {
 
 func genLookupCase(rt *rapid.T) LookupCase {
 	c := LookupCase{
-		Allow:     rapid.IntRange(0, 5).Draw(rt, "allow") != 0,
-		Kind:      rapid.SampledFrom([]string{"ok", "ok", "err", "hang", "hang", "hang-then-ok"}).Draw(rt, "kind"),
-		DelayS:    rapid.SampledFrom([]int{0, 0, 1, 7, 30, 120, 299, 301, 400}).Draw(rt, "delay"),
-		CacheFail: rapid.IntRange(0, 4).Draw(rt, "cachefail") == 0,
+		Allow:      rapid.IntRange(0, 5).Draw(rt, "allow") != 0,
+		Kind:       rapid.SampledFrom([]string{"ok", "ok", "err", "err-nettimeout", "err-reqtimeout", "hang", "hang", "hang-then-ok"}).Draw(rt, "kind"),
+		DelayS:     rapid.SampledFrom([]int{0, 0, 1, 7, 30, 120, 299, 301, 400}).Draw(rt, "delay"),
+		CacheFail:  rapid.IntRange(0, 4).Draw(rt, "cachefail") == 0,
+		NoDeclared: rapid.IntRange(0, 4).Draw(rt, "nodeclared") == 0,
 	}
 	n := rapid.IntRange(1, 5).Draw(rt, "ncallers")
 	for i := 0; i < n; i++ {
